@@ -250,8 +250,14 @@ impl BlockStateTracker {
             let map = Self::map();
             if let Ok(r) = map.read() {
                 if let Some(b) = r.get(&block_id) {
-                    b.is_checkpointed.store(true, Ordering::Release);
-                    Some(b.file_path.clone())
+                    // Count every block once: readers call this each time they find their
+                    // cursor at the end of the block (every peek, every empty poll), and the
+                    // per-file counter decides when the file may be deleted.
+                    if b.is_checkpointed.swap(true, Ordering::AcqRel) {
+                        None
+                    } else {
+                        Some(b.file_path.clone())
+                    }
                 } else {
                     None
                 }
